@@ -294,6 +294,22 @@ def c05_directed(rng, cfg):
     r = rng
     nodes = seed_network(h, rich=True)
     slept = set()
+    if h.vi >= 2 and r.random() < 0.1:
+        # many replies withheld for ONE sleeping node between two wake-ups: every request gets its reply
+        n = nodes[0]
+        if not h.known[n]:
+            h.child(n, 1, typ=3)
+        c = h.known[n][0]
+        sub = h.free_sub()
+        h.set(n, c, sub, "v")
+        h.wake(n)
+        for i in range(r.choice([12, 35, 70])):
+            if i % 3 == 0:
+                h.internal(n, r.choice([1, 6]), "", ack=r.choice([0, 1]))     # time / config request
+            else:
+                h.req(n, c, sub, ack=i % 2)
+        h.wake(n)
+        h.drain()
     for _ in range(r.randrange(8, 20)):
         k = r.random()
         n = r.choice(nodes)
